@@ -126,6 +126,12 @@ Send ==
           THEN Apply("send", Out([Cur EXCEPT !.q = Append(@, m)], R("ok", <<m>>), 0, 0))
           ELSE Apply("send", Out([Cur EXCEPT !.log = Append(@, "send")], R("ok", <<m>>), 0, 0))
 
+\* the device write fails (the cable was pulled for a moment): the error reaches the
+\* caller and the port stays exactly as it was - open, usable, nothing logged
+SendFail ==
+  /\ Kind \in {"io", "out", "ioport"} /\ ~closed
+  /\ Apply("send_fail", Out(Cur, R("OSError", <<>>), 0, 0))
+
 Receive == HasInput /\ CanReturn(Cur) /\ Apply("receive", Recv(Cur, TRUE))
 Poll    == HasInput /\ Apply("poll", Recv(Cur, FALSE))
 Iterate == /\ HasInput
@@ -144,7 +150,7 @@ Close   == Apply("close", Out(DoClose(Cur), R("ok", <<>>), 0, 0))
 Exit    == Apply("exit", Out(DoClose(Cur), R("ok", <<>>), 0, 0))     \* with port: ... __exit__
 
 Next == /\ Len(hist) < MaxCalls
-        /\ (Send \/ Receive \/ Poll \/ Iterate \/ IterPending \/ Close \/ Exit \/ Reset \/ Panic)
+        /\ (Send \/ SendFail \/ Receive \/ Poll \/ Iterate \/ IterPending \/ Close \/ Exit \/ Reset \/ Panic)
 Spec == Init /\ [][Next]_vars
 
 \* ---- properties (C11) ----
@@ -172,6 +178,11 @@ IterEndsCleanly ==
 NonBlockingNeverWaits ==
   \A i \in DOMAIN hist : hist[i].op \in {"poll", "iter_pending", "send", "close", "exit", "reset", "panic"}
      => hist[i].sleeps = 0
+\* a failed device write changes nothing: the port behaves afterwards as if the call had not been made
+FailedWriteIsNoOp ==
+  \A i \in DOMAIN hist : hist[i].op = "send_fail" =>
+     /\ ~hist[i].closed_before
+     /\ (i < Len(hist) => hist[i+1].closed_before = FALSE /\ hist[i+1].qlen_before = hist[i].qlen_before)
 \* a blocking receive never sleeps while a message is deliverable
 ReturnsWhenDeliverable ==
   \A i \in DOMAIN hist :
